@@ -796,6 +796,14 @@ def predictor_order(facts, orc):
                     t.row(E.canon(wl) == E.canon(base), b.id, "warm-up=pair.0",
                           "%s takes the residual from %s but %s warm-up samples" % (b.id, E.show(res), E.show(wl)),
                           {"site": b.id, "warm_up": E.show(wl), "residual": E.show(res)}, b.loc())
+                elif r[0] == "proj" and r[2] and r[2][-1] == ".1":
+                    # the (order, residual) pair is a value of this body (`let (order, residual) = chooser(..)?;`): the warm-up
+                    # count must be the pair's own first component
+                    base = ("proj", r[1], tuple(r[2][:-1]) + (".0",))
+                    t.row(E.canon(wl) == E.canon(base), b.id, "warm-up=pair.0",
+                          "%s takes the residual from the second component of a pair but %s warm-up samples, which is not "
+                          "the pair's first component" % (b.id, E.show(wl)[:120]),
+                          {"site": b.id, "warm_up": E.show(wl)[:120], "residual": "second component of the same pair"}, b.loc())
                 else:
                     t.row(False, b.id, "residual-origin", "cannot trace the residual %s to its encoder" % E.show(res)[:200])
                 if is_lpc:
